@@ -55,6 +55,36 @@ CHECKS = {
               "to one thread during instrumented calls."),
         technique="TLA+ file-operation state machine checked with TLC + fault-injected trace validation of the real calls",
     ),
+    "C03": dict(
+        category="model_checking",
+        text=("TLC checks spec/sys/NP2Split.tla (extends the Windows spec of C17 with the kept-range computation of _ind2save for "
+              "the AP and LF streams) for every (length, window) of a box with RATIO 3 / overlap 12 and for sampled lengths with the "
+              "real constants 12 / 576: the AP stream of a shank is the identity token sequence, complete at the end; and "
+              "spec/lib/ShankCols.tla for every assignment of channels to shanks: the run-length channel list parses back and the "
+              "scatter of the reconstructor reassembles the identity frame. Real NP2Converter + NP2Reconstructor runs (8- and "
+              "384-channel recordings, five shank-map kinds, all four NP2 gain settings, lengths not aligned with the window, all "
+              "65536 values present, sync = sample counter) are recorded (wrapped _ind2save) and validated as traces by "
+              "spec/trace/NP2SplitTrace.tla together with byte comparisons of every shank file, the reconstructed binary and the "
+              "reconstructed metadata; every shank map of the model is replayed on the real format/parse functions."),
+        design_ref="DESIGN.md §4 C03",
+        note=("Trusted: TLC; harness/np2common.py (synthesised recordings via metagen, token = sync counter); byte comparison as "
+              "projection. The float32 volts->int16 round trip is checked exhaustively on the real code (all 65536 values x 4 gain "
+              "settings), not derived in TLA+."),
+        technique="TLA+ token model of the window/kept-range/column bookkeeping checked with TLC + trace validation of real converter runs",
+    ),
+    "C12": dict(
+        category="model_checking",
+        text=("Same specification as C03 (spec/sys/NP2Split.tla): TLC checks that the LF stream is the token sequence 0, R, 2R, ... "
+              "of length ceil(n/R) whatever the window size and that no LF sample is taken from a tapered window margin. Real "
+              "NP2Converter runs (NP2.4 and NP2.1 layouts, broadband data, lengths not multiples of 12 or of the window, windows "
+              "1200..60000) are validated as traces (LF tokens read off the LF sync column) with projections of the LF files: row "
+              "count, sync = every 12th AP sync word, metadata opens at 2500 Hz with a matching shape, and two numeric "
+              "projections: window-size independence and interior vs whole-trace low-pass+decimation, both <= 1 LSB."),
+        design_ref="DESIGN.md §4 C12",
+        note=("Trusted: TLC; harness projections. The two '<= 1 LSB' clauses are measured on the real output (IIR filter not "
+              "modelled); tolerance is the property's own 1 LSB (+1e-6)."),
+        technique="TLA+ token model of decimation/kept ranges checked with TLC + trace validation of real converter runs; numeric clauses by projection",
+    ),
 }
 
 NOT_YET = {}
